@@ -174,9 +174,19 @@ def main(tier, args):
     os.makedirs(bdir, exist_ok=True)
     thorough = tier == "thorough"
     crc_f, md5_f, aes_f = (os.path.join(bdir, n) for n in ("expect_crc_%s.txt" % tier, "expect_md5_%s.txt" % tier, "expect_aes.txt"))
-    pool = ThreadPoolExecutor(3)
+    md5_q = os.path.join(bdir, "expect_md5_quick.txt")
+    if thorough:
+        gen_md5(md5_q, 130, False)
+    pool = ThreadPoolExecutor(4)
     gens = [pool.submit(gen_crc, crc_f, 2000 if thorough else 300), pool.submit(gen_md5, md5_f, 300 if thorough else 130, thorough),
             pool.submit(gen_aes, aes_f)]
+    srcs_h = [os.path.join(D, f) for f in ("harness.cpp", "sweep_b64.cpp", "sweep_hexurl.cpp", "sweep_sintser.cpp", "sweep_digest.cpp")]
+    srcs_r = vf.module_sources("util/base64.cpp", "util/string.cpp", "util/scalable_integer.cpp", "util/serializer.cpp", "http/url.cpp",
+                               "util/crc.cpp", "util/checksum.cpp", "crypto/md5.cpp", "crypto/aes.cpp")
+    # second executable WITHOUT NDEBUG: every TBOX_ASSERT of the nine sources is live (LogFatal + abort -> SIGABRT handler prints the case)
+    dbg = pool.submit(vf.build, "C19/harness_dbg", srcs_h, srcs_r, mode="asan",
+                      extra_flags=["-fsanitize-recover=address,undefined", "-D_GLIBCXX_ASSERTIONS", "-UNDEBUG"],
+                      harness_flags=["-fno-sanitize=undefined"], plain_srcs=[vf.VERIF + "/engine/sched/log_stub.cpp"])
     exe = vf.build("C19/harness", [os.path.join(D, f) for f in ("harness.cpp", "sweep_b64.cpp", "sweep_hexurl.cpp", "sweep_sintser.cpp", "sweep_digest.cpp")],
                    vf.module_sources("util/base64.cpp", "util/string.cpp", "util/scalable_integer.cpp", "util/serializer.cpp", "http/url.cpp",
                                      "util/crc.cpp", "util/checksum.cpp", "crypto/md5.cpp", "crypto/aes.cpp"),
@@ -184,17 +194,18 @@ def main(tier, args):
                    extra_flags=["-fsanitize-recover=address,undefined",        # report + continue; hooks in harness.cpp record the input
                                 "-D_GLIBCXX_ASSERTIONS"],                       # std::string/vector operator[], front(), back() beyond size() abort -> SIGABRT handler prints the case
                    harness_flags=["-fno-sanitize=undefined"])                  # UBSan only on the cpp-tbox sources (compile time of the harness)
+    exe_dbg = dbg.result()
     for g in gens:
         g.result()
     t_build = time.time() - t0
     # (sweep, number of processes, expect file)
     if thorough:
         plan = [("b64-rt", 16, ""), ("b64-dec", 16, ""), ("hex-rt", 16, ""), ("hex-dec", 16, ""), ("url-rt", 16, ""), ("url-dec", 16, ""),
-                ("sint", 1, ""), ("ser", 8, ""), ("crc", 1, crc_f), ("md5", 8, md5_f), ("md5big", 1, md5_f), ("aes", 16, aes_f), ("align", 15, ",".join((crc_f, md5_f, aes_f)))]
+                ("sint", 1, ""), ("ser", 8, ""), ("crc", 1, crc_f), ("md5", 8, md5_f), ("md5big", 1, md5_f), ("aes", 16, aes_f), ("align", 16, ",".join((crc_f, md5_f, aes_f)))]
         deadline = 1200
     else:
         plan = [("b64-dec", 8, ""), ("url-dec", 3, ""), ("b64-rt", 1, ""), ("hex-rt", 1, ""), ("hex-dec", 2, ""), ("url-rt", 1, ""),
-                ("md5big", 1, md5_f), ("align", 5, ",".join((crc_f, md5_f, aes_f))), ("sint", 1, ""), ("ser", 1, ""), ("crc", 1, crc_f), ("md5", 1, md5_f), ("aes", 2, aes_f)]
+                ("md5big", 1, md5_f), ("align", 6, ",".join((crc_f, md5_f, aes_f))), ("sint", 1, ""), ("ser", 2, ""), ("crc", 1, crc_f), ("md5", 1, md5_f), ("aes", 2, aes_f)]
         deadline = 60
     only = getattr(args, "only", None)
     cmds = []
@@ -203,6 +214,9 @@ def main(tier, args):
             continue
         for part in range(n):
             cmds.append(("%s.%d" % (sweep, part), [exe, sweep, tier, str(part), str(n)] + ([ef] if ef else [])))
+    for sweep, ef in (("b64-rt", ""), ("md5", md5_q)):            # asserts-live lane: quick-tier domain of the two sweeps whose sources carry asserts
+        if not only or sweep in only.split(",") or "dbg" in only.split(","):
+            cmds.append(("dbg-%s.0" % sweep, [exe_dbg, sweep, "quick", "0", "1"] + ([ef] if ef else [])))
     res = vf.Result()
     log = open(os.path.join(bdir, "log.txt"), "w")
     vf.run_procs(res, cmds, log=log, timeout=4 * deadline + 300, env={"VERIF_DEADLINE_S": str(deadline),
@@ -213,35 +227,44 @@ def main(tier, args):
     vf.finish(PID, tier, res, t0,
               rule="Engine I exhaustive sweeps on the real code under ASan+UBSan+_GLIBCXX_ASSERTIONS, outputs in new uint8_t[capacity] of exactly the advertised size. "
                    "Encoder inputs (Base64, hex, URL): all byte strings of length 0-2 over 0..255, length 3 over %s, lengths 4-%s x 6 patterns; "
-                   "decode(encode(x))==x, length == EncodeLength/DecodeLength/2n(+delimiters), all overloads, capacities {exact, exact-1, 0}, vs RFC 4648/3986 references; "
+                   "decode(encode(x))==x, length == EncodeLength/DecodeLength/2n(+delimiters), all overloads, capacities {exact, exact-1, 0}; Base64 and hex text compared with RFC 4648 / 2-digit references, "
+                   "UrlEncode (default argument and path mode) checked for printable output, length n+2*escapes and decodability by a strict RFC 3986 pct-decoder (its choice of which characters to escape is not compared); "
                    "hex: upper/lower x delimiters {none,' ',':',', ',': '} and the default arguments, 65534/65535 bytes (uint16_t limit), a 131074-digit string into capacity 65535. "
-                   "Decoder inputs: Base64 and URL all strings of length 0-3 over 0..255 (16 843 009), hex all strings of length 0-2 over 0..255 and length 3 over %s, Base64 length 4 over %s%s, every truncation and every single-byte A20 substitution "
-                   "of valid encodings; capacities {DecodeLength, -1, 0, max}: strictly valid input -> reference bytes, anything else -> no sanitizer report, result <= capacity. "
+                   "Decoder inputs: Base64 and URL all strings of length 0-3 over 0..255 (16 843 009), hex all strings of length 0-2 over 0..255 and length 3 over %s, Base64 length 4 over %s%s, every truncation of valid encodings of patterned inputs (Base64 to length 66, hex/URL to 40) and every single-byte A20 substitution in encodings of <= 12 characters; "
+                   "capacities Base64 {DecodeLength, -1, 0, 3/4 of the input}, hex {len/2, -1, 0, +1} (URL returns a string): strictly valid input -> reference bytes, anything else -> no sanitizer report, result <= capacity. "
                    "Scalable integer: 0, 2^64-1, +-2 around the 9 length boundaries, 2^k-1/2^k/2^k+1 (k=0..63)%s x buffer size 0..11 (dump, parse, truncation); parser on all byte "
                    "strings of length <=2%s and c^k / c^k t for k=0..12. Serializer/Deserializer: (A) every sequence of 0-%d items over {u8,u16,u32,u64,blob,SWITCH endian mid-stream} x "
                    "constructed {big, little, without endian argument} x 3 value sets x 3 API families (append/fetch, POD/NoCopy, operator<< >>; SWITCH by setEndian with the returned old value "
                    "checked, or by << / >> Endian), (B) every sequence of 0-%d items over those plus the {i8,i16,i32,i64,float,double} stream operators (bit patterns incl. MIN, MAX, -1, NaN payloads) x 5 value sets; "
-                   "each x raw capacity {exact,-1,0} + vector mode, deserializer size {exact,-1,0}; at EVERY deserializer position: checkSize/skip/fetchNoCopy/fetch/fetchPOD of rest+1, rest+2, 2^63, "
+                   "(C) every sequence of 0-%d items over {u8,u32,blob,SWITCH,pod} containing a blob of 255/256/257/%d bytes or an appendPOD/fetchPOD of 1/3/5/16 bytes (reference: bytes as in memory on little, reversed on big); "
+                   "each x raw capacity {exact,-1,0} - for sequences of <=3 items EVERY capacity and deserializer size 0..total (a refused item followed by narrower ones that fit) - + vector mode on {new, pre-filled with 1/total/total+5 bytes, "
+                   "reserve(64), a second Serializer over the first one's result: vector == serialized bytes exactly}, deserializer size {exact,-1,0}; at EVERY deserializer position: checkSize/skip/fetchNoCopy/fetch/fetchPOD of rest+1, rest+2, 2^63, "
                    "SIZE_MAX, SIZE_MAX-pos+{0,1,2} refused with position and output unchanged, set_pos(p) for p in {0,pos,size-1,size,size+1,SIZE_MAX} succeeds iff p<size and reads continue from p. "
                    "CRC-16/32 (3 seeds), checksum-8/16: all strings of length <=2 and "
                    "lengths 3-%d x 6 patterns vs bitwise references and python zlib/binascii/RFC 1071, 21 lengths up to 1 MiB+1 x 3 fills. MD5: lengths 0-%d x 2 patterns x {single, every 2-way split, %s3-way grid, "
-                   "byte-at-a-time, two instances fed alternately} vs hashlib; 2^29+5 zero bytes (bit counter carries into its high word) as %s. AES-128: 11 published known answers, all 128x128 single-bit key/block pairs%s vs a FIPS-197 reference and a pure-python AES, "
+                   "byte-at-a-time, two instances fed alternately, objects copy-constructed and assigned (over a used object) after part 1 of every 2-way split} vs hashlib; 2^29+5 zero bytes (bit counter carries into its high word) as %s. AES-128: 11 published known answers, all 128x128 single-bit key/block pairs%s vs a FIPS-197 reference and a pure-python AES, "
                    "invcipher(cipher(x))==x, each on a fresh object, on an unkeyed object after setKey, and on an object keyed with another key then re-keyed, working in place (input==output), "
-                   "a second block on the same object, re-keyed back and forth, with a second live object under the other key. "
+                   "a second block on the same object, re-keyed back and forth, with a second live object under the other key, and a copy / an assigned object taken before the original is re-keyed. "
+                   "Asserts-live lane: a second executable of the same sources built WITHOUT NDEBUG (TBOX_ASSERT aborts) runs the quick-tier Base64 round-trip and MD5 sweeps on the inputs the asserts allow (no empty input / capacity 0 for Base64 encode). "
+                   "URL round trip of the small domain repeated under LC_ALL=C.UTF-8. "
                    "Start alignment (sweep align): every buffer above starts 16-byte aligned, so the small-length part of every raw-pointer sweep (CRC/checksums: lengths 0-1 all, 2 over A20, 3-48 x 6 patterns, 3 seeds + every "
-                   "chained 2-way split; MD5 lengths 0-%d with all update splits; AES known answers + 128 bit pairs incl. in-place; Base64/hex round trips to length 40 and hostile strings to length 3 over A20; scalable integer "
-                   "values x buffer size 0..11; Serializer/Deserializer sequences of 0-2 items) is repeated with every input, output, key, blob and digest buffer starting at offset 1..7 inside an exact-size heap block "
-                   "(all buffers at the same offset, or rotating by 3 from buffer to buffer: 15 configurations; the bytes in front of a buffer must stay untouched)."
+                   "chained 2-way split, lengths 49-130 x 2 patterns; MD5 lengths 0-%d with every 2-way split, a 3-way grid, byte-at-a-time, copies; AES known answers + 128 bit pairs incl. in-place; Base64/hex round trips to length 40 and hostile strings to length 3 over A20; scalable integer "
+                   "values x buffer size 0..11; Serializer/Deserializer sequences of 0-2 items) is repeated with every input, output, key, blob and digest buffer starting at address mod 16 = %s inside an exact-size heap block "
+                   "(all buffers at the same offset, or rotating by 3 from buffer to buffer from base %s: %d configurations; the bytes in front of a buffer must stay untouched)."
                    % (a3, ml, "all 256 values" if thorough else "the 40-value alphabet A40", a4, ", hex/URL length 4 over A40 (2 560 000)" if thorough else "",
-                      ", +-20000 around every boundary" if thorough else "", " and 3" if thorough else "", 6 if thorough else 4, 4 if thorough else 3,
+                      ", +-20000 around every boundary" if thorough else "", " and 3" if thorough else "", 6 if thorough else 4, 4 if thorough else 3, 4 if thorough else 3, 70000 if thorough else 300,
                       2000 if thorough else 300, 300 if thorough else 130, "every 3-way split for L<=130, " if thorough else "",
                       "one update, 2^28+3|2^28+2, 2^29|5, 5|2^29, and a 1 MiB pattern block x 512 + tails {0,1,55,56,64}" if thorough else "one update and as 2^28+3|2^28+2 (low-word wrap)",
-                      ", bit keys x byte blocks, byte keys x bit blocks, 4096 patterned pairs" if thorough else "", 130 if thorough else 70),
+                      ", bit keys x byte blocks, byte keys x bit blocks, 4096 patterned pairs" if thorough else "", 130 if thorough else 70,
+                      "1..15" if thorough else "1..9 and 15", "0..15" if thorough else "0..7", 31 if thorough else 18),
               assumptions=["both sanitizer runtimes report a faulting code location once per process; the input shown is the first one in enumeration order (shortest first) reaching it",
                            "a decoder that leniently accepts an invalid string without any memory error is not counted as a violation (shown as outcome)",
                            "for std::string-taking functions (hex, URL, Base64 string overloads) an over-read through operator[]/front/back aborts (_GLIBCXX_ASSERTIONS); one through a raw data() pointer that stays inside the string's capacity is not observable",
                            "AES cipher/invcipher with input == output is read as part of 'block encryption equals the reference' (every in-tree and conventional use allows it)",
-                           "a Serializer append whose CLAIMED source length is >= SIZE_MAX-pos (no such object can exist) is outside the statement; the probe for it is off by default (C19_SER_HUGE_APPEND=1)",
+                           "a Serializer append whose CLAIMED source length is >= SIZE_MAX-pos (no such object can exist) is outside the statement; the probe for it is off by default (C19_SER_HUGE_APPEND=1) and reaches the protected gate through a using-declaration in a subclass",
+                           "vector-mode Serializer: the vector is read as THE output, so after any append its size equals pos() (what extendSize's resize does today), also when it was non-empty before",
+                           "UrlEncode depends on the process locale through isprint(); checked under C and C.UTF-8 only (an ISO-8859-x LC_CTYPE would leave bytes >= 0x80 unescaped; none is installed here)",
+                           "debug-build asserts forbid Base64 encode of an empty input / into capacity 0 (legitimately refused by return value in release builds); those inputs are exercised in the NDEBUG build only",
                            "a call into the real code that never returns is reported by a SIGALRM watchdog at 3 x deadline + 120 s",
                            "MD5/AES equality is decided on the enumerated messages, keys and blocks only",
                            "start offsets are varied for lengths up to 40-70 bytes only; a read BEFORE the start of an offset buffer lands in the harness's own prefix bytes and is not observable (a write is)",
